@@ -10,6 +10,7 @@ import (
 	"hash/fnv"
 	"os"
 	"path/filepath"
+	"runtime"
 	"sort"
 	"strconv"
 	"strings"
@@ -214,6 +215,20 @@ func Inflight(prop, kind string, v any) func() {
 	name := filepath.Join(dir, fmt.Sprintf("inflight-%s-%s-%d.json", prop, kind, os.Getpid()))
 	_ = os.WriteFile(name, b, 0o644)
 	return func() { _ = os.Remove(name) }
+}
+
+// Safe calls a runner and converts a panic on the calling goroutine (the tested code panicking inside a call the
+// harness made itself: a decoder, a marshaller, a write on a client) into an error, so that it is reported and
+// shrunk like any other verdict instead of aborting the test run.
+func Safe[C any, S any](run func(C) (S, error), c C) (st S, err error) {
+	defer func() {
+		if r := recover(); r != nil {
+			buf := make([]byte, 4096)
+			buf = buf[:runtime.Stack(buf, false)]
+			err = fmt.Errorf("panic: %v\n%s", r, buf)
+		}
+	}()
+	return run(c)
 }
 
 // Guard converts a panic of run into an error.
